@@ -15,7 +15,7 @@ import (
 )
 
 type c07Stats struct {
-	execs, pinnedIters, multiBucket, txWithIter, txNoIter, maxIters, akashIters, akashMulti, clockReads, gasCuts int64
+	execs, pinnedIters, multiBucket, txWithIter, txNoIter, maxIters, akashIters, akashMulti, clockReads, gasCuts, restarts int64
 }
 
 var c07 c07Stats
@@ -81,7 +81,7 @@ func fingerprint(w *World, st State, res TxResult) [32]byte {
 }
 
 func (chkC07) CheckTrans(t *TransCtx) (out []Viol) {
-	if t.Act.Gap > 0 {
+	if t.Act.Gap > 0 || t.Act.Do != nil {
 		return nil
 	}
 	w := t.W
@@ -132,6 +132,18 @@ func (chkC07) CheckTrans(t *TransCtx) (out []Viol) {
 		atomic.AddInt64(&c07.clockReads, int64(nows))
 		if fingerprint(w, st, res) != base {
 			out = append(out, Viol{"C07.deterministic", "wall-clock:" + t.Act.Kind, fmt.Sprintf("%s: result depends on the wall clock (re-executed with time.Now() shifted by %d years: ok=%v err=%q; at the real time: ok=%v err=%q)", t.Act.Name, shift/(365*86400), res.OK, res.Err, res0.OK, res0.Err)})
+			return out
+		}
+	}
+	// a RESTART must not matter either (parameter-changing scenarios): the same transaction on a freshly constructed
+	// application instance whose stores hold the same contents — nothing a process keeps only in memory may decide a result
+	if w.GP.RestartCheck {
+		w2, st2 := w.Restarted(t.PreSt)
+		res := w2.Exec(st2, t.Act.Msg(w.Cast))
+		atomic.AddInt64(&c07.execs, 1)
+		atomic.AddInt64(&c07.restarts, 1)
+		if fingerprint(w2, st2, res) != base {
+			out = append(out, Viol{"C07.deterministic", "restart:" + t.Act.Kind, fmt.Sprintf("%s: a freshly started node holding the same state gives a different result (restarted: ok=%v err=%q gas=%d; running process: ok=%v err=%q gas=%d)", t.Act.Name, res.OK, res.Err, res.Gas, res0.OK, res0.Err, res0.Gas)})
 			return out
 		}
 	}
@@ -219,7 +231,8 @@ func c07Extra(thorough bool) (extraResult, error) {
 		"map_iterations_in_akash_code": atomic.LoadInt64(&c07.akashIters), "multi_bucket_map_iterations_in_akash_code": atomic.LoadInt64(&c07.akashMulti), "transactions_iterating_maps": atomic.LoadInt64(&c07.txWithIter),
 		"transactions_without_map_iteration": atomic.LoadInt64(&c07.txNoIter), "max_map_iterations_in_one_tx": atomic.LoadInt64(&c07.maxIters),
 		"hook_selftest_distinct_orders": len(orders), "time_now_calls_under_shifted_clock": atomic.LoadInt64(&c07.clockReads),
-		"out_of_gas_cut_points_followed_by_reexecution": atomic.LoadInt64(&c07.gasCuts), "max_cut_points_per_tx": c07MaxCuts}
+		"out_of_gas_cut_points_followed_by_reexecution": atomic.LoadInt64(&c07.gasCuts), "max_cut_points_per_tx": c07MaxCuts,
+		"reexecutions_on_a_freshly_started_instance": atomic.LoadInt64(&c07.restarts)}
 	ne := ""
 	if n := atomic.LoadInt64(&c07.akashMulti); n > 0 {
 		ne = fmt.Sprintf("%d iterations over multi-bucket maps happened inside akash code; their order also depends on the per-map hash seed, which is not enumerated", n)
